@@ -506,3 +506,11 @@ func init() {
 		}
 	})
 }
+
+func init() {
+	extraIntrinsics = append(extraIntrinsics, func(m map[string]Intrinsic) {
+		// tracing helpers: identity on the context / empty carrier
+		m["github.com/buildbarn/bb-storage/pkg/otel.NewContextWithW3CTraceContext"] = func(fr *frame, args []value) value { return args[0] }
+		m["github.com/buildbarn/bb-storage/pkg/otel.W3CTraceContextFromContext"] = func(fr *frame, args []value) value { return (*omap)(nil) }
+	})
+}
